@@ -61,6 +61,21 @@ def read_back(yp):
             if len(rows) > 12:
                 break
         out[(name, arity)] = rows
+    # the database builtins are alive (as goals) in every reachable state: assert / read / retract a probe fact
+    n1 = 0
+    for _ in yp.query('assertz', [yp.functor('zz_probe', [7])]):
+        n1 += 1
+    v = yp.variable()
+    seen = []
+    for _ in yp.query('zz_probe', [v]):
+        seen.append(v.get_value())
+    n2 = 0
+    for _ in yp.query('retract', [yp.functor('zz_probe', [7])]):
+        n2 += 1
+    n3 = 0
+    for _ in yp.query('retractall', [yp.functor('zz_never', [1])]):
+        n3 += 1
+    out['builtin-probe'] = (n1, seen, n2, n3)
     return out
 
 
@@ -238,6 +253,9 @@ def make_body(nmax, steps, info):
             except Exception as e:
                 ch.note(info, 'read-back raised %s: %s', type(e).__name__, str(e)[:150])
                 return ch.VIOLATED
+            if back.pop('builtin-probe') != (1, [7], 1, 1):
+                ch.note(info, 'after step %d (%s): assertz/retract/retractall used as goals no longer work', s, opname)
+                return ch.VIOLATED
             if back != model:
                 ch.note(info, 'after step %d (%s on %s/%d): contents %r, model %r', s, opname, name, arity, back, model)
                 return ch.VIOLATED
@@ -265,9 +283,10 @@ def units(tier, seed):
                                bounds='one %s on %s/%d (pattern modes %r) from a state with 0..%d facts per predicate'
                                       % (OPS[op], PREDS[tp][0], PREDS[tp][1], fx, nmax)))
     if tier != 'quick':
-        for op0 in range(len(OPS)):
-            for op1 in range(len(OPS)):
-                for tp in (0, 1, 2):
+        core = [i for i, o in enumerate(OPS) if o in ('assertz', 'asserta', 'query', 'retract', 'retractall')]
+        for op0 in core:
+            for op1 in core:
+                for tp in (0, 2):
                     us.append(dict(id='b.%s-%s.%s' % (OPS[op0], OPS[op1], PREDS[tp][0]), nmax=2, steps=2,
                                    fixed={'op0': op0, 'op1': op1, 'tp0': tp, 'tp1': tp, 'gf0': 0, 'gf1': 0},
                                    ob='C07.b', timeout=1200, weight=200,
